@@ -777,6 +777,11 @@ impl<'d> Exec<'d> {
                         BrokerAct::SendRaw(b) => w.send_raw(cidx, b),
                         BrokerAct::Close => w.conns[cidx].close_after_drain = true,
                         BrokerAct::Policy(p) => w.conns[cidx].broker = p,
+                        BrokerAct::WriteGate { after, blocks } => {
+                            let c = &mut w.conns[cidx];
+                            let offset = c.out.bytes.len() + after;
+                            c.wgates.push(crate::world::Gate { offset, blocks: blocks.max(1) });
+                        }
                         BrokerAct::Gate { after, blocks } => {
                             // one stall at a time: a new one only once the previous one lies inside data that was sent
                             let c = &mut w.conns[cidx];
